@@ -97,7 +97,7 @@ const (
 )
 
 func runC16(c *core.Ctx) {
-	c.Explanation = "Structural necessary conditions of `fmt -w` atomicity, decided on the SSA of the whole module: (1) who-may-write: no os.OpenFile with a writing flag, os.Create, os.WriteFile, os.Truncate or ioutil.WriteFile is applied to a path whose backward slice (inter-procedural through string parameters) contains resolver.VCL.Name; (2) the only mutation of such a path is os.Rename(tmp, path) with tmp from os.CreateTemp, dominated by the nil-error edge of every write to tmp that can precede it, with at least one dominating write whose source is the formatter's result; (3) (*Formatter).Format can return nil, so every use of its result is dominated by a non-nil test. This decides the shape of the write path, not the bytes written."
+	c.Explanation = "Structural necessary conditions of `fmt -w` atomicity, decided on the SSA of the whole module: (1) who-may-write: no os.OpenFile with a writing flag, os.Create, os.WriteFile, os.Truncate or ioutil.WriteFile is applied to a path whose backward slice (inter-procedural through string parameters) contains resolver.VCL.Name; (2) the only mutation of such a path is os.Rename(tmp, path) with tmp from os.CreateTemp, dominated by the nil-error edge of every write to tmp that can precede it, with at least one dominating write whose source is the formatter's result; (3) (*Formatter).Format can return nil, so every use of its result is dominated by a non-nil test. This decides the shape of the write path, not the bytes written. (fsatomic.onceread) the formatter's reader has at most one consumer on every path."
 	c.NotCovered = []string{"what the kernel does on rename, power loss (no fsync demanded)", "that the temp file ends up with the right permissions", "equality of the bytes written with `falco fmt FILE` output beyond 'same formatter result value'"}
 	c.Assumptions = []string{"the input file is named by resolver.VCL.Name (the only field the runner uses to reopen it)", "os.Rename within one directory is atomic"}
 	prog := c.Prog
